@@ -32,7 +32,7 @@ from workflows.runtime.types.plugin import (
     InternalRunAdapter,
     V2RuntimeCompatibilityShim,
 )
-from workflows.runtime.types.ticks import WorkflowTick
+from workflows.runtime.types.ticks import TickCancelRun, WorkflowTick
 from workflows.workflow import Workflow
 
 from .._keyed_lock import KeyedLock
@@ -105,6 +105,13 @@ class IdleReleaseExternalRunAdapter(BaseExternalRunAdapterDecorator):
                     self.run_id, idle_since=None
                 )
             await self._decorated.send_event(tick)
+
+    @override
+    async def cancel(self) -> None:
+        # Go through send_event: the inherited cancel() hands the request to the
+        # inner adapter, which does not exist for an idle-released run, so the
+        # cancel was silently dropped and the handler stayed "running".
+        await self.send_event(TickCancelRun())
 
 
 class IdleReleaseDecorator(BaseRuntimeDecorator):
